@@ -83,6 +83,13 @@ def U_OPS() -> Dict[str, Callable]:
         "setitem_region_scalar": lambda S, a: _set(S, tuple(slice(0, max(1, s - 1)) for s in S.shape), 9.0),
         "setitem_stride_scalar": lambda S, a: _set(S, tuple([slice(None)] * (a["N"] - 1) + [slice(None, None, 2)]), -4.0),
         "getitem_region_list": lambda S, a: S[tuple([[s - 1, 0] if s > 1 else [0] for s in S.shape])],
+        # operands that turn stored entries into zeros: they may not stay behind as explicit zeros
+        "mul_scalar_zero": lambda S, a: S * 0,
+        "rmul_scalar_zero": lambda S, a: 0 * S,
+        "mul_ktensor_zero_row": lambda S, a: S * ttb.ktensor([np.where(np.arange(u.shape[0])[:, None] == 0, 0.0, u) if k == 0 else u
+                                                              for k, u in enumerate(a["U"])], np.array([2.0, -1.0])),
+        "scale_vec_zero": lambda S, a: S.scale(np.where(np.arange(len(a["vec"][0])) == 0, 0.0, a["vec"][0]), np.array([0])),
+        "scale_dense_zero": lambda S, a: S.scale(T(np.where(np.arange(len(a["vec"][0])) == 0, 0.0, a["vec"][0])), np.array([0])),
         "mul_scalar": lambda S, a: S * 2,
         "rmul_scalar": lambda S, a: 3 * S,
         "div_scalar": lambda S, a: S / 2,
@@ -179,7 +186,8 @@ STRICT = ["add", "sub", "mul", "and", "or", "xor", "eq", "ne", "lt", "le", "gt",
           "to_sptenmat_t", "sptenmat_roundtrip", "aggregate_dup", "aggregate_cancel", "sptenmat_ctor",
           "eq_scalar", "ne_scalar", "lt_scalar", "ge_scalar0", "gt_scalar_neg", "and_scalar", "eq_dense",
           "ne_dense", "le_dense", "gt_dense", "and_dense", "mul_dense_zeros", "setitem_region", "copy",
-          "permute_rev", "reshape_flat", "squeeze", "ones", "neg", "pos"]
+          "permute_rev", "reshape_flat", "squeeze", "ones", "neg", "pos",
+          "mul_scalar_zero", "rmul_scalar_zero", "mul_ktensor_zero_row", "scale_vec_zero", "scale_dense_zero", "div"]
 
 
 def applicable(op: str, shape) -> bool:
